@@ -23,7 +23,7 @@ Bad(e) ==
   \cup (IF e.sentForeign THEN {"G_C20_OnlyToTheRealmsKdcs"} ELSE {})
   \cup (IF e.status = 200 /\ ~e.replyOK THEN {"G_C20_ReplyIsTheKdcReply"} ELSE {})
   \cup (IF want = 0 /\ known /\ Replies(e) /\ e.status # -1 /\ e.status # 200 THEN {"G_C20_ReachableKdcAnswered"} ELSE {})
-  \cup (IF want = 0 /\ (~known \/ ~Replies(e)) /\ e.status = 200 /\ ~e.partialOnly THEN {"G_C20_NoReplyNoSuccess"} ELSE {})
+  \cup (IF want = 0 /\ (~known \/ ~Replies(e)) /\ e.status = 200 THEN {"G_C20_NoReplyNoSuccess"} ELSE {})
   \cup (IF e.panicked THEN {"G_C10_NoPanic"} ELSE {})
 TInit == /\ l = 1 /\ viol = {} /\ cover = {}
          /\ req = [method |-> "POST", len |-> "ok", body |-> "valid", realm |-> "default", size |-> "s1400", after |-> "nothing"] /\ foreign = "nothing"
